@@ -23,9 +23,29 @@ import (
 	"verifharness/hx"
 )
 
+// idxReader is the tensor's io.WriterTo; it remembers the input index (the sort moves tensors) and can misreport the number of
+// bytes it wrote, as every tensor writer of the convert package does (safetensor, torch, experts, ropeFactor all return 0).
 type idxReader struct {
 	*bytes.Reader
 	idx int
+	lie string // "": faithful, "zero": 0, "short": n-1, "double": 2n, "neg": -1
+}
+
+func (r *idxReader) WriteTo(w io.Writer) (int64, error) {
+	n, err := r.Reader.WriteTo(w)
+	switch r.lie {
+	case "zero":
+		return 0, err
+	case "short":
+		if n > 0 {
+			return n - 1, err
+		}
+	case "double":
+		return 2 * n, err
+	case "neg":
+		return -1, err
+	}
+	return n, err
 }
 
 // memWS is an in-memory io.WriteSeeker.
